@@ -170,8 +170,10 @@ func nontrivial(t *vt.Tables, v *vt.Val) bool {
 	return false
 }
 
-func classes(rep *vh.Report, v *vt.Val, depth int) int {
-	max := depth
+// classes counts the shapes the vacuity rule looks at and returns the nesting depth of v
+// (a scalar has depth 0, a container one more than its deepest member).
+func classes(rep *vh.Report, v *vt.Val) int {
+	max := 0
 	switch v.K {
 	case "list":
 		if len(v.List) == 0 {
@@ -181,23 +183,25 @@ func classes(rep *vh.Report, v *vt.Val, depth int) int {
 			if i > 0 && (x.K == "list" || x.K == "obj") && (v.List[i-1].K == "list" || v.List[i-1].K == "obj") {
 				rep.Class("has-adjacent-containers")
 			}
-			if d := classes(rep, x, depth+1); d > max {
+			if d := classes(rep, x); d > max {
 				max = d
 			}
 		}
+		return max + 1
 	case "obj":
 		if len(v.Ents) == 0 {
 			rep.Class("has-empty-map")
 		}
 		for _, e := range v.Ents {
-			if d := classes(rep, e.Val, depth+1); d > max {
+			if d := classes(rep, e.Val); d > max {
 				max = d
 			}
 		}
+		return max + 1
 	default:
 		rep.Class("leaf-" + v.K)
 	}
-	return max
+	return 0
 }
 
 func caseInfo(t *vt.Tables, c *Vector, r *Real, aspect string) map[string]interface{} {
@@ -250,7 +254,7 @@ func cmdReplay(args []string) {
 		rep.Case(key, nontrivial(t, c.V))
 		rep.Class("fam-" + c.Fam)
 		rep.Class(fmt.Sprintf("mode-%s-ind%+d-sort=%v", c.Fmt, c.Ind, c.Sorted))
-		rep.Class(fmt.Sprintf("depth-%d", classes(rep, c.V, 0)))
+		rep.Class(fmt.Sprintf("depth-%d", classes(rep, c.V)))
 		if i%211 == 0 {
 			rep.Sample(map[string]interface{}{"value": c.V, "format": c.Fmt, "indent": c.Ind, "sort": c.Sorted, "written": string(r.Bytes)})
 		}
@@ -468,7 +472,7 @@ func cmdRecord(args []string) {
 	rot := 0
 	for i := 0; i < *n; i++ {
 		v := g.value(1 + g.r.Intn(*depth))
-		if i%3 == 0 && v.K != "list" && v.K != "obj" { // most recorded values should be containers
+		if i%5 != 0 && v.K != "list" && v.K != "obj" { // most recorded values should be containers
 			v = &vt.Val{K: "list", List: []*vt.Val{v, g.value(*depth - 1), g.value(*depth - 1)}}
 		}
 		format := []string{"sdl", "json"}[g.r.Intn(2)]
@@ -482,7 +486,7 @@ func cmdRecord(args []string) {
 		key := fmt.Sprintf("%s|%d|%v|%s", format, ind, sorted, v.Canon(t))
 		rep.Case(key, nontrivial(t, v))
 		rep.Class(fmt.Sprintf("mode-%s-ind%s-sort=%v", format, map[bool]string{true: "<0", false: map[bool]string{true: "=0", false: ">0"}[ind == 0]}[ind < 0], sorted))
-		rep.Class(fmt.Sprintf("depth-%d", classes(rep, v, 0)))
+		rep.Class(fmt.Sprintf("depth-%d", classes(rep, v)))
 		if i%97 == 0 {
 			rep.Sample(map[string]interface{}{"value": v, "format": format, "indent": ind, "sort": sorted, "written": string(r.Bytes)})
 		}
